@@ -409,11 +409,13 @@ class Translator:
                     if isinstance(arg, F) or arg.typ != typ:
                         raise KernelError(f"{key}: argument of type {getattr(arg, 'typ', 'Q')} where {typ} is mapped")
             return E(" ".join([target["coq"]] + [par(a.text) for a in args]), target["ret"])
-        if key in ("abs", "int", "len", "min", "max", "any", "all", "bool"):
+        if key in ("abs", "int", "len", "min", "max", "any", "all", "bool", "sum"):
             if node.keywords:
                 raise KernelError("keyword arguments of a builtin")
-            if key in ("any", "all", "min", "max") and len(node.args) == 1 and isinstance(node.args[0], ast.GeneratorExp):
+            if key in ("any", "all", "min", "max", "sum") and len(node.args) == 1 and isinstance(node.args[0], ast.GeneratorExp):
                 return self.generator(key, node.args[0], env)
+            if key == "sum":
+                raise KernelError("sum of something that is not a generator")
             if key in ("min", "max") and len(node.args) == 1 and not isinstance(node.args[0], (ast.List, ast.Tuple)):
                 x = self.expr(node.args[0], env)
                 if isinstance(x, F) or x.typ != "list Z":
@@ -480,6 +482,8 @@ class Translator:
                 body = f"map (fun {name} => {elt.text}) {par(seq)}"
             else:
                 body = f"flat_map (fun {name} => {body}) {par(seq)}"
+        if key == "sum":
+            return E(f"fold_right Z.add 0 {par(body)}", "Z")
         return E(f"{'lmin' if key == 'min' else 'lmax'} {par(body)}", "Z")
 
     def static_test(self, node):
